@@ -8,6 +8,7 @@ import (
 	sdk "github.com/cosmos/cosmos-sdk/types"
 
 	clienttypes "github.com/cosmos/ibc-go/v11/modules/core/02-client/types"
+	clientv2types "github.com/cosmos/ibc-go/v11/modules/core/02-client/v2/types"
 	connectiontypes "github.com/cosmos/ibc-go/v11/modules/core/03-connection/types"
 	channeltypes "github.com/cosmos/ibc-go/v11/modules/core/04-channel/types"
 	porttypes "github.com/cosmos/ibc-go/v11/modules/core/05-port/types"
@@ -118,4 +119,14 @@ func (w *World) SymChannel(tag, port, channel, connID string) channeltypes.Chann
 	}
 	w.IBC.ChannelKeeper.SetChannel(w.Ctx, port, channel, ch)
 	return ch
+}
+
+// SymCounterparty registers an arbitrary v2 counterparty (symbolic client id and one-element-plus-prefix merkle prefix) for clientID.
+func (w *World) SymCounterparty(tag, clientID string) clientv2types.CounterpartyInfo {
+	cp := clientv2types.CounterpartyInfo{
+		MerklePrefix: [][]byte{verif.Bytes(tag + ".prefix0"), verif.Bytes(tag + ".prefix1")},
+		ClientId:     verif.String(tag + ".client"),
+	}
+	w.IBC.ClientV2Keeper.SetClientCounterparty(w.Ctx, clientID, cp)
+	return cp
 }
